@@ -45,6 +45,19 @@ fn stmt_texts_at(stmts: &[Statement], loc: &Location, out: &mut Vec<String>) {
     }
 }
 
+/// (location, text) of every statement, nested ones included
+fn all_stmts(stmts: &[Statement], out: &mut Vec<(Sexp, String)>) {
+    for s in stmts {
+        out.push((crate::astx::loc(&stmt_location(s)), format!("{}", s)));
+        match s {
+            Statement::Scan(x) => x.arms.iter().for_each(|a| all_stmts(&a.statements, out)),
+            Statement::If(x) => x.arms.iter().for_each(|a| all_stmts(&a.statements, out)),
+            Statement::ForIn(x) => all_stmts(&x.statements, out),
+            _ => {}
+        }
+    }
+}
+
 /// every statement context of an error, outermost first
 fn statement_contexts(e: &ExecutionError, out: &mut Vec<(String, Location)>) {
     if let ExecutionError::InContext(ctx, cause) = e {
@@ -154,4 +167,68 @@ pub fn run(rep: &mut Report, tier: &str, seed: u64) {
                 }
             }
         });
+    conflict_stream(rep, &mut runner, tier, seed);
+}
+
+/// Two-sided conflicts with other definitions in between: a duplicate scoped variable (or attribute) whose two
+/// conflicting statements are separated by definitions of the SAME name on other nodes, in the same stanza or in
+/// stanzas between them. The error must name the two statements that conflict, not their neighbours.
+fn conflict_stream(rep: &mut Report, runner: &mut Runner, tier: &str, seed: u64) {
+    use crate::gen::dsl::Program;
+    use crate::props::common::{gen_source, load, Loaded};
+    let n = if tier == "thorough" { 600 } else { 60 };
+    let root = crate::rng::Rng::new(seed ^ 0xc0f1);
+    for i in 0..n {
+        let mut r = root.fork(i as u64);
+        let v = *r.pick(&["v", "val", "kind"]);
+        let w = if r.chance(1, 3) { *r.pick(&["w", "other"]) } else { v };
+        let (a, b, c) = (r.below(9), r.below(9), 10 + r.below(9));
+        let text = match r.below(5) {
+            0 => format!("(module) @m {{\n  let @m.{v} = {a}\n}}\n(identifier) @id {{\n  let @id.{w} = {b}\n}}\n(module) @m2 {{\n  let @m2.{v} = {c}\n}}\n"),
+            1 => format!("(module (_) @s) @m {{\n  let @m.{v} = {a}\n  let @s.{w} = {b}\n  let @m.{v} = {c}\n}}\n"),
+            2 => format!("(module) @m {{\n  var @m.{v} = {a}\n}}\n(identifier) @id {{\n  let @id.{w} = (source-text @id)\n}}\n(integer) @i {{\n  let @i.{w} = {b}\n}}\n(module) @m2 {{\n  if #true {{\n    let @m2.{v} = {c}\n  }}\n}}\n"),
+            3 => format!("(module) @m {{\n  node @m.n\n  attr (@m.n) {v} = {a}\n}}\n(identifier) @id {{\n  node @id.n\n  attr (@id.n) {w} = {b}\n}}\n(module) @m2 {{\n  attr (@m2.n) {v} = {c}\n}}\n"),
+            _ => format!("(module (_) @s) @_m {{\n  let @s.{w} = {b}\n}}\n(module) @m1 {{\n  let @m1.{v} = {a}\n  for x in [1, 2] {{\n    let @m1.{v} = {c}\n  }}\n}}\n"),
+        };
+        let file = match load(&text) {
+            Ok(Ok(f)) => f,
+            other => {
+                rep.fail("direct", "C20 conflict program rejected", true, json!({"tsg": text, "result": format!("{:?}", other.map(|x| x.map(|_| "file")))}));
+                continue;
+            }
+        };
+        let source = gen_source(&mut r, true, false);
+        let info = crate::tree::TreeInfo::new(&source.tree);
+        let loaded = Loaded { program: Program { text: text.clone(), header: String::new(), stanzas: vec![text.clone()], globals: vec![], stanza_count: 1, has_fault: false, features: vec![], static_fault: None }, file };
+        let mi = crate::execx::model_input(&loaded.file, &source.tree, &source.src, &info);
+        runner.set_tree(&info, &source.src);
+        runner.table = crate::oracle::OracleTable::new();
+        runner.table.arm_sets = crate::astx::scan_arm_sets(&loaded.file);
+        let case = Case { tsg: &text, loaded: &loaded, source: &source, info: &info, mi: &mi };
+        rep.case(&format!("{}\u{0}{}", text, source.src), true);
+        for lazy in [false, true] {
+            let res = runner.check_mode(rep, &case, &RunCfg { lazy, globals: vec![], outer_globals: vec![], debug: None, cancel_at: None }, true, true);
+            rep.count(&format!("conflict-stream:{}:{}", if lazy { "lazy" } else { "strict" }, res.class));
+            if lazy && (res.class == "err:DuplicateVariable" || res.class == "err:DuplicateAttribute") {
+                // direct: the two statements named are two statements that assign the conflicting name
+                if let Some(ctxs) = first_stmt_ctx(&res.run.outcome) {
+                    rep.count(&format!("conflict-stream:contexts:{}", ctxs.len()));
+                    let key = format!(".{} =", v);
+                    let key2 = format!(" {} =", v);
+                    let mut all: Vec<(Sexp, String)> = Vec::new();
+                    for stz in &loaded.file.stanzas {
+                        all_stmts(&stz.statements, &mut all);
+                    }
+                    for c in &ctxs {
+                        let at = &c.as_list().unwrap()[0];
+                        let st: String = all.iter().filter(|(l, _)| l == at).map(|(_, t)| t.clone()).collect::<Vec<_>>().join(" / ");
+                        if w != v && !(st.contains(&key) || st.contains(&key2)) {
+                            rep.fail("direct", "C20 lazy: a conflict names a statement that does not assign the conflicting name", true,
+                                json!({"tsg": text, "source": source.src, "named": st, "conflicting_name": v, "error": res.run.outcome.pretty()}));
+                        }
+                    }
+                }
+            }
+        }
+    }
 }
